@@ -207,6 +207,9 @@ func (w *c18World) run(fs *envfs.FS, op string, order int, fi, kind int) c18Resu
 				return nil
 			}
 			res.reached = true
+			if k == "read" && kind == 1 {
+				return &envfs.Fault{Err: envfs.ErrInjected, Partial: envfs.HalfRead, Kind: "half-read"}
+			}
 			if kind == 0 || k != "write" {
 				return &envfs.Fault{Err: envfs.ErrInjected, Partial: -1, Kind: "error"}
 			}
@@ -307,6 +310,9 @@ func c18Gen(g *core.Gen) {
 							kinds := 1
 							if base.log[i].Kind == "write" {
 								kinds = 1 + len(c18Cuts(base.log[i].Data))
+							}
+							if base.log[i].Kind == "read" {
+								kinds = 2 // error without data; error together with the first half of the file
 							}
 							for k := 0; k < kinds; k++ {
 								g.Emit(&c18Case{Fmt: f, Op: op, State: st, Order: order, I: i, Kind: k, Pairs: (g.Thorough() && (world == 0 || order == 0)) || order == 0, World: world})
@@ -462,6 +468,9 @@ func c18Run(ci interface{}, r *core.Rec) {
 			if pr.log[j].Kind == "write" {
 				kinds = 1 + len(c18Cuts(pr.log[j].Data))
 			}
+			if pr.log[j].Kind == "read" {
+				kinds = 2
+			}
 			for k := 0; k < kinds; k++ {
 				fs2 := envfs.New()
 				for p, b := range after1 {
@@ -503,7 +512,7 @@ func init() {
 	core.Register(&core.Prop{
 		ID:    "C18",
 		Level: "fault_enumeration",
-		Rule: "(plus the error-path alphabet of the decoder protocol search - see C14 - on one Decoder object per sequence: Repair with its 1st / 2nd write torn, loads whose 1st / 2nd / 3rd read fails, then counts / Repair retries on the same object) environment enumeration on the owned filesystem: {Create, Verify, Repair, Repair+double-check} x {PAR1, PAR2} x archive state {intact, one file missing, one changed, one shifted, beyond capacity, volume missing + damage, two damaged, recovery data under look-alike names (a renamed volume whose blocks are needed + another set's index), an index file whose own name looks like a recovery file's} x listing order {sorted, reversed, rotated}; thorough adds a larger world (3 files, 7 blocks in 3 recovery files; PAR1 4 files, 3 volumes) with all 6 listing orders; a fault at EACH I/O call index of the never-faulted run, of each kind (error without effect; for writes additionally torn at byte 0, 1, middle, len-1 and packet/field boundaries), and for each such fault EVERY second fault in the re-run (pairs), followed by a fault-free re-run. " +
+		Rule: "(plus the error-path alphabet of the decoder protocol search - see C14 - on one Decoder object per sequence: Repair with its 1st / 2nd write torn, loads whose 1st / 2nd / 3rd read fails, then counts / Repair retries on the same object) environment enumeration on the owned filesystem: {Create, Verify, Repair, Repair+double-check} x {PAR1, PAR2} x archive state {intact, one file missing, one changed, one shifted, beyond capacity, volume missing + damage, two damaged, recovery data under look-alike names (a renamed volume whose blocks are needed + another set's index), an index file whose own name looks like a recovery file's} x listing order {sorted, reversed, rotated}; thorough adds a larger world (3 files, 7 blocks in 3 recovery files; PAR1 4 files, 3 volumes) with all 6 listing orders; a fault at EACH I/O call index of the never-faulted run, of each kind (error without effect; for reads additionally the error together with the first half of the file; for writes additionally torn at byte 0, 1, middle, len-1 and packet/field boundaries), and for each such fault EVERY second fault in the re-run (pairs), followed by a fault-free re-run. " +
 			"Oracle: a reached fault => non-nil error; a path whose write failed is not reported repaired; only write targets change; the fault-free re-run succeeds exactly like the never-faulted run and ends in the same directory whenever the reference says the (possibly torn) directory is still within capacity. non-trivial = the injected fault was reached",
 		Assumptions: []string{"faults are injected at the fileIO seam (the only I/O gopar performs)", "a torn write leaves a prefix of the data in the target file"},
 		NewCase:     func() interface{} { return &c18Case{} },
